@@ -237,6 +237,48 @@ def build_config(ctl, w, j, values, objs):
     return cfg, init
 
 
+def dump_heap(ctl, root, init_tasks):
+    """The object graph updatedependencies() is about to walk, read off the real objects: nodes =
+    configuration objects; fields in xpmvalues() order (None skipped); pre/init tasks; the task mark;
+    which Job object `.job` is (as workload index); loaded flag."""
+    from pathlib import Path
+    from enum import Enum
+    from experimaestro import Config
+    ids, nodes, order = {}, [], []
+
+    def nid(o):
+        if id(o) not in ids:
+            ids[id(o)] = len(order)
+            order.append(o)
+            nodes.append(None)
+        return ids[id(o)]
+
+    def val(v):
+        if isinstance(v, Config):
+            return ["ref", nid(v)]
+        if isinstance(v, (list, set)):
+            return ["list", [val(x) for x in v]]
+        if isinstance(v, dict):
+            return ["dict", [[val(k), val(x)] for k, x in v.items()]]
+        if isinstance(v, (str, int, float, Path, Enum)):
+            return ["atom"]
+        return ["other", type(v).__name__]
+
+    nid(root)
+    i = 0
+    while i < len(order):
+        o = order[i]
+        xi = o.__xpm__
+        fields = [val(v) for (a, v) in xi.xpmvalues() if v is not None]
+        pre = [nid(x) for x in xi.pre_tasks]
+        init = [nid(x) for x in (init_tasks if o is root else xi.init_tasks)]
+        task = None if xi.task is None else nid(xi.task)
+        jobof = None if xi.job is None else ctl.jobidx.get(id(xi.job), -1)
+        nodes[i] = dict(fields=fields, pre=pre, init=init, task=task, jobof=jobof, loaded=bool(xi.loaded))
+        i += 1
+    return nodes
+
+
 def snapshot(ctl, xp, w, tokens, wait_status):
     jobs = []
     for j, job in enumerate(ctl.jobs):
@@ -283,7 +325,7 @@ def run_workload(w):
     njobs = len(w["jobs"])
     ctl.jobs = [None] * njobs
     wd = tempfile.mkdtemp(prefix="xpmverif-sched-", dir=w.get("scratch"))
-    trace = dict(steps=[], deps=[None] * njobs, dup=[None] * njobs, error=None)
+    trace = dict(steps=[], deps=[None] * njobs, dup=[None] * njobs, heaps=[None] * njobs, error=None)
     try:
         xp = experiment(wd, "x", port=-1)
         xp.__enter__()
@@ -313,6 +355,10 @@ def run_workload(w):
                 cfg.add_dependencies(tokens[t].dependency(c))
             ctl.plan = dict(index=j, code=spec["code"], marker=spec.get("marker", False))
             objs[j] = cfg
+            if w.get("dump_heaps"):
+                trace["heaps"][j] = dict(nodes=dump_heap(ctl, cfg, init),
+                                         explicit=[ctl.jobidx.get(id(d.origin), -1) for d in cfg.__xpm__.dependencies
+                                                   if isinstance(d, JobDependency)])
             values[j] = cfg.submit(init_tasks=init) if init else cfg.submit()
             job = cfg.__xpm__.job
             deps = []
